@@ -399,9 +399,9 @@ struct ArraysWorld : World {
 					{ Sut s; mpt_array_clone(AR(H[h]), 0); } M[h] = Model(); break;
 				}
 				{
-					// "buffer satisfying requested type and space": content stays; a smaller request may also shrink it to the request
-					size_t keep = (len + ES - 1) / ES;
-					if (m.size() > keep && used(h) / ES == keep) m.resize(keep);
+					// "buffer satisfying requested type and space": content stays, as a vector's does on reserve - also when the request is
+					// smaller than the content and whether or not another handle shares the buffer (a no-copy buffer that cannot be used in place is dropped)
+					if (nocopy && !used(h)) m.clear();
 					M[h].has = true;
 				}
 				break;
@@ -953,8 +953,7 @@ struct ArraysWorld : World {
 					long n = (long) ((size_t) op.c % 20);
 					bool ok; { Sut s(failn); ok = PA[h]->reserve(n); fired = g.fired; }
 					log.ev("X_RESERVE plain %d %ld%s -> %d", h, n, fired ? " allocfail" : "", (int) ok);
-					if ((long) MP3[h].size() > n && PA[h]->length() == n) MP3[h].resize((size_t) n);
-					outcome = ok;
+					outcome = ok;      // content stays, whatever the request and whoever shares the buffer
 				} else {
 					bool ok; { Sut s(failn); ok = PA[h]->detach(); fired = g.fired; }
 					log.ev("X_DETACH plain %d%s -> %d", h, fired ? " allocfail" : "", (int) ok);
@@ -1057,8 +1056,7 @@ struct ArraysWorld : World {
 				long n = (long) ((size_t) op.c % 20);
 				bool ok; { Sut s(failn); ok = TA[h]->reserve(n); fired = g.fired; }
 				log.ev("X_RESERVE typed %d %ld%s -> %d", h, n, fired ? " allocfail" : "", (int) ok);
-				// content stays, or is cut to the request when a new buffer had to be made
-				if ((long) MT[h].size() > n && TA[h]->length() == n) MT[h].resize((size_t) n);
+				// content stays, whatever the request and whoever shares the buffer
 				outcome = ok;
 				break;
 			}
@@ -1127,6 +1125,23 @@ struct ArraysWorld : World {
 				if ((size_t) pa.length() != want.size()) fail("wrong-content", "pointer_array compact leaves %ld entries, %zu are non-null", pa.length(), want.size());
 				for (size_t i = 0; i < want.size(); ++i) if (pa.begin()[i] != want[i]) fail("wrong-content", "pointer_array compact changed the order at %zu", i);
 				if (op.b & 1) { if ((size_t) pb.length() != mp.size()) fail("other-handle-changed", "compact through one pointer_array changed the copy (%ld entries, was %zu)", pb.length(), mp.size()); for (size_t i = 0; i < mp.size(); ++i) if (pb.begin()[i] != mp[i]) fail("other-handle-changed", "compact through one pointer_array changed entry %zu of the copy", i); }
+				// swap of two entries: positions outside the data are refused, a copy taken before keeps its order
+				{
+					pointer_array<int> pc; { Sut s; pc = pa; }
+					std::vector<int *> cur(pa.begin(), pa.begin() + pa.length()); long len = (long) cur.size();
+					long p1 = (long) ((op.c >> 8) % (uint64_t) (len + 3)) - 1, p2 = (long) ((op.c >> 12) % (uint64_t) (len + 3)) - 1;
+					bool ok; { Sut s; ok = pa.swap(p1, p2); }
+					bool valid = p1 >= 0 && p2 >= 0 && p1 < len && p2 < len;
+					log.ev("X_PTRS swap(%ld, %ld) of %ld -> %d", p1, p2, len, (int) ok);
+					if (ok && !valid) fail("accepted-invalid", "pointer_array swap(%ld, %ld) accepted on %ld entries", p1, p2, len);
+					if (!ok && valid) fail("refused-valid", "pointer_array swap(%ld, %ld) refused on %ld entries", p1, p2, len);
+					std::vector<int *> exp = cur; if (ok && valid) std::swap(exp[(size_t) p1], exp[(size_t) p2]);
+					if (pa.length() != (long) exp.size()) fail("wrong-content", "pointer_array has %ld entries after swap(%ld, %ld), had %ld", pa.length(), p1, p2, len);
+					for (size_t i = 0; i < exp.size(); ++i) if (pa.begin()[i] != exp[i]) fail("wrong-content", "pointer_array entry %zu is wrong after swap(%ld, %ld)", i, p1, p2);
+					if (pc.length() != len) fail("other-handle-changed", "swap through one pointer_array changed the length of its copy");
+					for (size_t i = 0; i < cur.size(); ++i) if (pc.begin()[i] != cur[i]) fail("other-handle-changed", "swap(%ld, %ld) through one pointer_array reordered its copy (entry %zu)", p1, p2, i);
+					st.hit("probe:pointer_array_swap");
+				}
 				log.ev("X_PTRS %d entries -> %zu after compact", n, want.size());
 				outcome = (int) want.size();
 				operated = -1;
